@@ -586,7 +586,7 @@ func (ma *ModAnalysis) invoke(cc *ssa.CallCommon, mi *modInfo) {
 	ex := ma.ex
 	itName := ex.w.typeName(cc.Value.Type())
 	key := itName + "." + cc.Method.Name()
-	if c, ok := ex.cs.Funcs[key]; ok {
+	if c, ok := ex.cs.Funcs[key]; ok && !c.safetyOnly() {
 		if c.HasMod {
 			for _, v := range ex.staticModVars(c, nil, cc.Signature()) {
 				mi.vars[v] = true
